@@ -11,4 +11,4 @@ def classify(name, prog, res):
 
 
 def run(ctx):
-    return mp.generic_run(ctx, {"faithfulb": mp.on_case("faithfulb")}, classify, level='translation_validation', second_compilation=True, plain_left=True, text_variants=True)
+    return mp.generic_run(ctx, {"faithfulb": mp.on_case("faithfulb")}, classify, level='translation_validation', second_compilation=True, plain_left=True, text_variants=True, other_spellings=True)
